@@ -120,6 +120,11 @@ def gen_reglists():
             if mask & 0x06 == 0x06:
                 dregs = ["D"] + [x for x in regs if x not in ("A", "B")]
                 yield mnem, dregs, "D"
+        # lists that name a register twice, directly or through D = A+B: the bits are a set, naming one twice changes nothing
+        for regs in (["D", "A"], ["A", "D"], ["B", "D"], ["A", "B", "D"], ["D", "X", "B"], ["CC", "A", "B", "D", "DP", "X", "Y", other, "PC"]):
+            yield mnem, regs, "overlap"
+        for regs in (["A", "A"], ["X", "Y", "X"], ["PC", "PC"], ["D", "D"], ["CC", "CC", "CC"], [other, "A", other]):
+            yield mnem, regs, "repeat"
 
 
 def cases(tier, seed):
@@ -207,6 +212,11 @@ def check_case(case):
                      "observed": observed, "input": dict(case, lines=lines)})
 
     want_txt = "accepted; decodes to {} {}".format(mnem, {k: sk[k] for k in sk} | ({"value": v} if v is not None else {}))
+    if sk.get("order") == "repeat":
+        if out["kind"] == "DIAG":
+            res["state"] = "DIAG:" + cell          # refusing a repeated register is as good as ignoring the repetition
+            return res
+        sk = dict(sk, regs=list(dict.fromkeys(sk["regs"])))
     if out["kind"] != "OK":
         if out["kind"] == "DIAG":
             bad("rejected", want_txt, common.outcome_brief(out))
@@ -274,7 +284,7 @@ def describe(tier):
                     "(inh, #imm, addr, <addr, >addr, [addr], indexed zero/const/A,B,D/auto inc-dec x X,Y,U,S x direct/indirect, "
                     "n,PCR, [n,PCR]) x boundary value set V16 (+3 character codes) x spellings "
                     "{dec,$min,$2,$4,%8,%16,'c} x routes {literal, EQU before/after use, label before/after use}; "
-                    "all 255 register masks x 4 push/pull mnemonics x up to 4 orders; all legal TFR/EXG pairs"
+                    "all 255 register masks x 4 push/pull mnemonics x up to 4 orders, plus lists naming a register twice (D with A/B, plain repeats); all legal TFR/EXG pairs"
                     + ("; plus the complete range -32768..65535 for every value-bearing form of 14 representative rows" if tier == "thorough" else ""),
         "bound": "single statements (depth 1) in 1-3 line programs",
         "oracle": "core-valid statement must be accepted; datasheet decode of the emitted bytes = one instruction of that mnemonic "
